@@ -468,6 +468,17 @@ def perturb(rng, st, extra_stacks):
         elif r < 0.45:
             c.obj = None
             done.append("drop-obj")
+        if c.inner_stack is not None:
+            r2 = rng.random()
+            if r2 < 0.12:
+                c.inner_stack.leaf = Root(2000 + rng.randrange(9))
+                done.append("inner-leaf")
+            elif r2 < 0.24:
+                try:
+                    raise KeyError("inner failure %d" % rng.randrange(9))
+                except KeyError as e:
+                    c.inner_stack.error = e
+                done.append("inner-error")
         if rng.random() < 0.12:
             # attach child task stacks: stub or populated, with or without root
             kids = list(c.children)
